@@ -1,10 +1,10 @@
 SPECIFICATION Spec
 CONSTANTS
   Classes = {192, 219, 220, 221, 65}
-  MaxRaw = 6
-  MaxRawErr = 3
-  MaxPayload = 5
-  MaxGarbage = 3
+  MaxRaw = 8
+  MaxRawErr = 5
+  MaxPayload = 7
+  MaxGarbage = 4
 INVARIANT CaseOK
 CONSTRAINT EmitCases
 CHECK_DEADLOCK FALSE
